@@ -26,7 +26,9 @@ PROP = {'gen': ['base64'],
                'on non-final chunks (any image size, by induction over the chunking); over all histories, with genuine or spurious '
                'error responses in any mix, no protocol error, every placement names a transmitted image, pixels transmitted at most '
                'once BETWEEN ERROR RESPONSES naming the id (C11_once_between_errors), not once per handler lifetime; image and '
-               'placement ids in 1..2^32-1; image ids are allocated per content, two contents never share one (C11_ids_distinct); '
+               'placement ids in 1..2^32-1; image ids are allocated per content, two contents never share one (C11_ids_distinct), also '
+               'over whole histories and for ids assigned while nothing is transmitted under them, for arbitrary hash values '
+               '(C11_live_contents_distinct_ids: id table vs transmitted set); '
                'placement ids invertible and injective for coordinates < 65536 except the forced pair (65534,65535)/(65535,65535); '
                'draw adds and erase removes exactly one placement (C11_pairing_*); the model passes the very predicate applied to '
                'the implementation on every well-formed case outside the known class pid-corner '
